@@ -20,6 +20,7 @@ Link to the code:
 """
 from __future__ import annotations
 
+import hashlib
 import logging
 import socket
 import struct
@@ -39,7 +40,7 @@ RULE = ("scripted introductions: NAT type of requester x of introduced peer (4x4
         "its WAN address, response only (via a fourth node), response then request, request then response} x "
         "NAT port policy {preserving, remapped} x LAN numbering drawn from all three RFC 1918 ranges incl. their edges and "
         "colliding /24s x listening ports {all 8090, distinct} x optional noise walks among candidates; plus random "
-        "histories: 3-6 hosts with random ages, 6-25 random walk/ask ops in either of two overlays. distinct = distinct (configuration, op list); non-trivial = at "
+        "histories: 3-6 hosts with random ages, 6-25 random walk/ask ops in either of two overlays, closed by an introduction of two nodes that do not know each other (oracle); plus the classes lan-collision, foreign-entry (known findings), bootstrap (blacklisted introducer), own-machine (introducer behind a box, peer on its machine), capacity (introducer at max_peers). distinct = distinct (configuration, op list); non-trivial = at "
         "least one packet was dropped by a NAT filter or delivered over a LAN segment")
 TRUSTED_BASE = [
     "tools/gen_c13.py: AST translation of the address decisions of community.py (assignments, if/elif chains, list appends, tuple/attribute/index expressions); IPv4 only, isinstance(x, UDPv4Address) is translated to true",
@@ -52,10 +53,14 @@ ASSUMPTIONS = [
     "cone NATs only: endpoint-independent mapping (symmetric NAT excluded as in the property); boxes do not hairpin",
     "the introducer is directly reachable (public, unfiltered); it knows the introduced peer from that peer's first request, from repeated requests, from its response (the introducer was introduced to it by a fourth node and walked to it), or both ways in either order — all five histories are checked",
     "the requester's next contact attempt = a walk to every address it was handed, after the puncture has left the introduced peer's NAT",
-    "IPv4, endpoint without an `interfaces` attribute, max_peers not reached, empty address blacklist",
+    "IPv4, endpoint without an `interfaces` attribute (no DispatcherEndpoint: my_preferred_address() = my_estimated_wan, no interface switching)",
+    "the full statement (every prior requester state) is FALSE for the unchanged code: two known findings (known_findings.d/C13.json); the tables are for a requester that knows nobody but the introducer",
 ]
 
 TYPES = ["none", "fullCone", "addrRestricted", "portRestricted"]
+# oracle signatures that are consequences of "the handed-out address is not reported as walkable"
+CONSEQUENCES = {"on_introduction_response:nothing-to-walk", "on_introduction_response:unreachable", "get_peers:requester",
+                "get_peers:introduced", "on_introduction_request:answer-lost"}
 PLACEMENTS = ["public", "diff", "same", "rPub", "pPub"]
 # how the introducer learned the candidates: their first request | repeated requests, the later ones sent after the
 # candidate learned its WAN address | their response only | response, then a request | request, then a response
@@ -241,7 +246,8 @@ class World:
 
         env = {"loop": loop, "com": com, "epmod": epmod, "cls": [IntroCommunity0, IntroCommunity1],
                "ep": make_endpoint_class(),
-               "keys": [default_eccrypto.generate_key("curve25519") for _ in range(10)], "world": None,
+               "keys": [default_eccrypto.key_from_private_bin(b"LibNaCLSK:" + hashlib.sha512(b"c13-key-%d" % i).digest())
+                        for i in range(12)], "world": None,
                "catch": ErrCatcher()}
         for nm in ("IntroCommunity0", "IntroCommunity1"):
             logging.getLogger(nm).addHandler(env["catch"])
@@ -368,6 +374,18 @@ class World:
         self.expect.append("nosend" if raised and not self.net.trace else (self.trace_str() if done else "fuel"))
         return list(self.net.trace)
 
+    def blacklist(self, i: int, addr):
+        """a bootstrap server's address: Community.ensure_blacklisted"""
+        self.net.hosts[i].node.ensure_blacklisted(addr)
+        self.lines.append(f"blacklist {i} {ip2int(addr[0])} {addr[1]}")
+        self.expect.append("ok")
+
+    def set_max_peers(self, i: int, m: int):
+        for nd in self.net.hosts[i].nodes:
+            nd.max_peers = m
+        self.lines.append(f"maxpeers {i} {m}")
+        self.expect.append("ok")
+
     def set_clock(self, i: int, t: int):
         """the node's age: its Lamport clock (global time) as if it had already created t messages"""
         self.net.hosts[i].node.update_global_time(t)
@@ -473,7 +491,10 @@ class Layout:
         box = self.boxes[b]
         while True:
             lan = (f"{box['net']}.{self.rng.randrange(2, 255)}", self.port())
-            if lan not in self.used_lan:    # full LAN addresses are unique over the whole world (see design notes)
+            # full LAN addresses (ip AND port) are kept unique over the whole world, although /24s may collide: two verified
+            # peers with one address make Network.get_verified_by_address order-dependent (verified_peers is a set), which
+            # the list-based model cannot follow.  The class "lan-collision" creates exactly one such duplicate on purpose.
+            if lan not in self.used_lan:
                 self.used_lan.add(lan)
                 break
         wp = lan[1] if self.port_policy == "preserve" else self.rng.randrange(1024, 65000)
@@ -491,8 +512,24 @@ def scripted(ctx: Ctx, cfg: dict, use_model: bool, batch: list):
     try:
         lay = Layout(rng, cfg["ports"], cfg["same_port"])
         tR, tP, pl = cfg["tR"], cfg["tP"], cfg["placement"]
-        I = w.add_host(*lay.public_host(), "none")
-        if pl == "public":
+        klass = cfg.get("klass", "std")
+        ctx.count("class:" + klass)
+        if klass == "own-machine":
+            # the introducer sits behind an unfiltered, port-preserving box and the introduced peer runs on the SAME machine
+            # (same LAN ip, other port); the requester is public or behind its own box
+            bI = lay.new_box()
+            ilan, iwan, _ = lay.boxed_host(bI)
+            lay.boxes[bI]["ports"].discard(iwan[1])
+            iwan = (iwan[0], ilan[1])
+            I = w.add_host(ilan, iwan, bI, "none")
+            R = w.add_host(*(lay.public_host() if pl in ("public", "rPub") else lay.boxed_host(lay.new_box())), tR)
+            pport = ilan[1] + 1 + rng.randrange(50)
+            P = w.add_host((ilan[0], pport), (iwan[0], pport), bI, tP)
+        else:
+            I = w.add_host(*lay.public_host(), "none")
+        if klass == "own-machine":
+            pass
+        elif pl == "public":
             R = w.add_host(*lay.public_host(), tR)
             P = w.add_host(*lay.public_host(), tP)
         elif pl == "diff":
@@ -520,7 +557,15 @@ def scripted(ctx: Ctx, cfg: dict, use_model: bool, batch: list):
             else:
                 spec = lay.boxed_host(rng.choice(list(lay.boxes)))
             extras.append(w.add_host(*spec, rng.choice(TYPES)))
-        X = w.add_host(*lay.public_host(), "none") if cfg["history"] in ("response", "resp+req") else None
+        X = w.add_host(*lay.public_host(), "none") if (cfg["history"] in ("response", "resp+req")
+                                                        or klass in ("own-machine", "foreign-entry")) else None
+        Q = None
+        if klass == "lan-collision":
+            # a third peer on ANOTHER LAN that happens to have the introduced peer's full LAN address (same home-router
+            # numbering, same default port); reachable without filtering so that the requester can get to know it
+            rbox = w.net.hosts[R].box
+            bq = lay.new_box(lay.boxes[rbox]["net"] if rbox else None)
+            Q = w.add_host(w.net.hosts[P].lan, (lay.boxes[bq]["ip"], 40000 + rng.randrange(20000)), bq, "none")
         hosts = w.net.hosts
         cands = [P, *extras]
         rng.shuffle(cands)
@@ -535,6 +580,17 @@ def scripted(ctx: Ctx, cfg: dict, use_model: bool, batch: list):
         iaddr = hosts[I].wan
         history = cfg["history"]
         new = cfg["style"] == "new"
+        if klass == "bootstrap":
+            # the introducer is a bootstrap server: everybody else has its address on the blacklist (never a verified peer)
+            for h in hosts:
+                if h.idx != I:
+                    w.blacklist(h.idx, iaddr)
+        if klass == "capacity":
+            # the introducer holds exactly max_peers peers when the requester's request arrives: it still answers
+            w.set_max_peers(I, len(cands))
+        if klass == "own-machine":
+            w.walk(I, hosts[X].wan)          # the introducer learns its WAN address
+            ctx.count("own-machine:introducer-wan-known:%s" % (tuple(hosts[I].node.my_estimated_wan) == hosts[I].wan))
         # node ages: Lamport clocks as if the nodes had already created that many messages
         for hidx, age in enumerate(cfg.get("ages", [])):
             if age and hidx < n:
@@ -549,7 +605,7 @@ def scripted(ctx: Ctx, cfg: dict, use_model: bool, batch: list):
                 # the candidate walks to the introducer; with `repeat` it contacts it once more AFTER it learned its own
                 # WAN address from the first response (its request then carries source_wan_address != source_lan_address)
                 for c in cands:
-                    w.walk(c, iaddr, s)
+                    w.walk(c, hosts[I].lan if hosts[c].box == hosts[I].box != 0 else iaddr, s)
                     if new:
                         w.ask(c, I, s)
                     if repeat:
@@ -594,6 +650,13 @@ def scripted(ctx: Ctx, cfg: dict, use_model: bool, batch: list):
                     for a, _ns in w.walkable(c, s)[:3]:
                         if a not in (hosts[R].lan, hosts[R].wan):      # the pair under test stays unconnected
                             w.walk(c, a, s)
+            if klass == "lan-collision" and s == 0:
+                w.walk(R, hosts[Q].wan, s)        # the requester gets to know Q (Q's response tells its LAN address)
+            if klass == "foreign-entry" and s == 0:
+                # X runs (as far as the requester knows) only overlay 1 and introduces P's addresses to the requester there
+                w.walk(P, hosts[X].wan, 1)
+                w.set_pref(X, [P] + [k for k in range(n) if k not in (P, X)])
+                w.walk(R, hosts[X].wan, 1)
             w.query_all()
             # ---- the scripted introduction ---------------------------------------------------------------------
             already = P in w.peers(R, s) and R in w.peers(P, s)
@@ -608,15 +671,16 @@ def scripted(ctx: Ctx, cfg: dict, use_model: bool, batch: list):
                         f = dict(t.split("=") for t in d.split()[1:])
                         named |= {f["li"], f["wi"], f"{ip2int(hosts[R].lan[0])}:{f['wi'].split(':')[1]}"}
             handed = [a for a, _ in w.walkable(R, s) if sa(a) in named]
+            cause = diagnose(w, R, P, s, named)
             w.query_all()
             ev2 = []
             for a in handed:
                 ev2 += w.walk(R, a, s)
             w.query_all()
             ctx.count("pre:already-peers-in-overlay:%s" % already)
-            check_scripted(ctx, w, dict(cfg, overlay=s), R, P, I, ev1, ev2, handed, s)
+            check_scripted(ctx, w, dict(cfg, overlay=s), R, P, I, ev1, ev2, handed, s, cause)
 
-        if cfg.get("overlays") == "other-first":
+        if cfg.get("overlays") == "other-first" and klass == "std":
             phase(1)          # requester and introduced peer become peers in overlay 1 first (shared Network) …
         phase(0)              # … and are then introduced to each other in overlay 0
         for k, v in w.raised.items():
@@ -638,13 +702,40 @@ def scripted(ctx: Ctx, cfg: dict, use_model: bool, batch: list):
         w.close()
 
 
-def check_scripted(ctx: Ctx, w: World, cfg: dict, R: int, P: int, I: int, ev1, ev2, handed, s: int = 0):
+def knows(w: World, a: int, b: int) -> bool:
+    """is b a verified peer of a (in any overlay)?"""
+    kb = w.e["keys"][b].pub().key_to_bin()
+    return kb in w.net.hosts[a].node.network.verified_by_public_key_bin
+
+
+def diagnose(w: World, R: int, P: int, s: int, named: set):
+    """Is the requester's address table in one of the two states for which the unchanged code is KNOWN not to connect the
+    pair (known_findings.d/C13.json)?  Decided from the real Network object before the contact attempt, not from the
+    outcome.  (a) an address of the introduction is also an address of ANOTHER verified peer of the requester;
+    (b) an address of the introduction is already in the address table, introduced by a still-verified peer that does not
+    run this overlay, through another overlay."""
+    node = w.net.hosts[R].nodes[s]
+    net = node.network
+    pkey = w.e["keys"][P].pub().key_to_bin()
+    for peer in net.verified_peers:
+        if peer.public_key.key_to_bin() != pkey and any(sa(a) in named for a in peer.addresses.values()):
+            return "collision"
+    for a, entry in net._all_addresses.items():
+        if sa(a) in named and entry.introduced_by in net.verified_by_public_key_bin \
+                and node.community_id not in net.services_per_peer.get(entry.introduced_by, set()) \
+                and entry.services != node.community_id:
+            return "foreign"
+    return None
+
+
+def check_scripted(ctx: Ctx, w: World, cfg: dict, R: int, P: int, I: int, ev1, ev2, handed, s: int = 0, cause=None,
+                   replay_rec=None):
     """The property itself, evaluated on the real nodes and the simulator's delivery log."""
     hosts = w.net.hosts
     hr, hp = hosts[R], hosts[P]
     same = hr.box != 0 and hr.box == hp.box
     tag = f"{cfg['tR']}/{cfg['tP']}/{cfg['placement']}/{cfg['style']}"
-    rep = {"kind": "scripted", "cfg": {k: v for k, v in cfg.items() if k != "overlay"}, "overlay": s}
+    rep = replay_rec or {"kind": "scripted", "cfg": {k: v for k, v in cfg.items() if k != "overlay"}, "overlay": s}
     ctx.count(f"cfg:placement:{cfg['placement']}")
     ctx.count(f"cfg:style:{cfg['style']}")
     ctx.count(f"cfg:types:{cfg['tR']}>{cfg['tP']}")
@@ -652,11 +743,26 @@ def check_scripted(ctx: Ctx, w: World, cfg: dict, R: int, P: int, I: int, ev1, e
     ctx.count(f"cfg:history:{cfg['history']}")
     ctx.count(f"cfg:overlays:{cfg.get('overlays', 'single')}:phase{s}")
     ages = cfg.get("ages", [])
-    ctx.count("cfg:requester-age:" + ("young" if not ages or ages[R] < 65536 - 64 else "wraps" if ages[R] < 65536 else "old"))
+    if cfg.get("klass") != "random":
+        ctx.count("cfg:requester-age:" + ("young" if not ages or ages[R] < 65536 - 64 else "wraps" if ages[R] < 65536 else "old"))
     ctx.count(f"cfg:ports:{cfg['ports']}:{'same' if cfg['same_port'] else 'distinct'}")
 
+    known_sig = {"collision": "get_walkable_addresses:address-of-another-verified-peer",
+                 "foreign": "get_walkable_addresses:entry-of-another-overlay"}.get(cause)
+    ctx.count("diagnosed:" + str(cause))
+
     def fail(sig, what):
-        ctx.oracle_fail(sig, f"[{tag}] {what}", rep)
+        if known_sig is not None and sig in CONSEQUENCES:
+            seen = ctx.extra.setdefault("known_finding_occurrences", {})
+            seen[known_sig] = seen.get(known_sig, 0) + 1
+            if seen[known_sig] > 3:
+                return
+            # the requester's address table is in a state for which the unchanged code is known to fail (diagnosed before
+            # the contact attempt): everything that follows from "the address is not walkable" is reported under the
+            # known finding's own signature; every other check keeps its signature
+            ctx.oracle_fail(known_sig, f"[{tag}] {what}", rep)
+        else:
+            ctx.oracle_fail(sig, f"[{tag}] {what}", rep)
 
     if not ev1:
         fail("create_introduction_request:not-sent",
@@ -688,6 +794,9 @@ def check_scripted(ctx: Ctx, w: World, cfg: dict, R: int, P: int, I: int, ev1, e
         fail("create_introduction_response:lan-address", f"handed-out LAN address {fields['li']} is not the introduced peer's {sa(hp.lan)}")
     if (cfg["style"] == "new") != resp[-1][2].startswith("resp1"):
         ctx.count("style-mismatch")
+        # counted, not judged: the style of an answer follows the sender's new_style_intro flag at the introducer, which is
+        # network-wide and sticky (set by any earlier new-style contact, e.g. in the other overlay); the property makes no
+        # claim about which style is used, only that both work
     # (c) the puncture
     punc = [e for e in descr1 if e[0] == P and e[2].startswith("punc")]
     if not punc:
@@ -734,7 +843,7 @@ def random_history(ctx: Ctx, seed: int, use_model: bool, batch: list):
     try:
         lay = Layout(rng, rng.choice(["preserve", "remap"]), rng.random() < 0.5)
         nh = rng.randrange(3, 7)
-        w.add_host(*lay.public_host(), rng.choice(["none", "none", "fullCone"]))
+        w.add_host(*lay.public_host(), "none")
         for _ in range(nh - 1):
             r = rng.random()
             if r < 0.3:
@@ -767,13 +876,19 @@ def random_history(ctx: Ctx, seed: int, use_model: bool, batch: list):
                 ctx.count("op:walk-known")
                 w.walk(i, a, sv)
             elif r < 0.7:
+                have = [h for h in range(nh) if w.walkable(h, sv)]
+                if have:
+                    i = rng.choice(have)       # some node that was introduced to something and has not walked yet
                 wk = w.walkable(i, sv)
                 if wk:
                     ctx.count("op:walk-walkable")
                     w.walk(i, rng.choice(wk)[0], sv)
+                elif w.peers(i, sv):
+                    ctx.count("op:ask")
+                    w.ask(i, rng.choice(sorted(w.peers(i, sv))), sv)
                 else:
                     ctx.count("op:walk-bootstrap")
-                    w.walk(i, hosts[0].wan, sv)
+                    w.walk(i, hosts[rng.randrange(nh)].wan, sv)
             elif r < 0.9:
                 ps = sorted(w.peers(i, sv))
                 if ps:
@@ -788,6 +903,33 @@ def random_history(ctx: Ctx, seed: int, use_model: bool, batch: list):
             if rng.random() < 0.5:
                 w.query_all()
         w.query_all()
+        # ---- closing oracle: after the random history, host 0 introduces two nodes that do not know each other ---------
+        pairs = [(a, b) for a in range(1, nh) for b in range(1, nh) if a != b
+                 and not knows(w, a, b) and not knows(w, b, a)]
+        if pairs:
+            R, P = rng.choice(pairs)
+            ctx.count("random-oracle:run")
+            w.set_pref(0, [P] + [k for k in range(nh) if k not in (0, P)])
+            w.walk(P, hosts[0].wan, 0)
+            ev1 = w.walk(R, hosts[0].wan, 0)
+            named = set()
+            for src, _d, data, out in ev1:
+                if src == 0 and out.endswith(f":{R}"):
+                    d = w.describe(data)
+                    if d.startswith("resp"):
+                        f = dict(t.split("=") for t in d.split()[1:])
+                        named |= {f["li"], f["wi"], f"{ip2int(hosts[R].lan[0])}:{f['wi'].split(':')[1]}"}
+            cause = diagnose(w, R, P, 0, named)
+            handed = [a for a, _ in w.walkable(R, 0) if sa(a) in named]
+            ev2 = []
+            for a in handed:
+                ev2 += w.walk(R, a, 0)
+            w.query_all()
+            cfg = {"klass": "random", "tR": hosts[R].typ, "tP": hosts[P].typ, "placement": "random", "style": "any",
+                   "history": "random", "ncand": nh - 2, "ports": lay.port_policy, "same_port": lay.same_port}
+            check_scripted(ctx, w, cfg, R, P, 0, ev1, ev2, handed, 0, cause, {"kind": "random", "seed": seed})
+        else:
+            ctx.count("random-oracle:no-unconnected-pair")
         nontrivial = any(o.startswith(("drop:filtered", "lan:")) for _, _, _, o in w.net.log)
         ctx.case(("random", seed), nontrivial)
         for _, _, _, o in w.net.log:
@@ -828,7 +970,8 @@ def lan_table_check(ctx: Ctx, use_model: bool, batch: list):
             w.lines.append(f"inlan {n}")
             w.expect.append("true" if got else "false")
             ctx.count("inlan:" + str(got))
-        ctx.case(("lan-table",), True, n=len(ips))
+        ctx.case(("lan-table",), True)
+        ctx.extra["lan_table_lookups"] = len(ips)
         if use_model:
             batch.append((("lan-table", None), w.lines, w.expect))
     finally:
@@ -854,17 +997,28 @@ def flush(ctx: Ctx, batch: list):
     batch.clear()
 
 
-def table_cfgs(rng, variants: int, placements=PLACEMENTS, history="normal"):
+# further scenario classes: (placements, styles) each is run over, with history "normal"
+CLASSES = {
+    "lan-collision": (["same", "diff"], ("old", "new")),    # requester already knows a peer with the introduced peer's LAN address
+    "foreign-entry": (["diff", "same", "public"], ("old", "new")),  # address first introduced through another overlay
+    "bootstrap": (PLACEMENTS, ("old",)),                     # the introducer is a blacklisted bootstrap server
+    "own-machine": (["public", "diff"], ("old", "new")),     # introducer behind a NAT, introduced peer on its machine
+    "capacity": (["diff", "same"], ("old",)),                # introducer holds exactly max_peers peers
+}
+
+
+def table_cfgs(rng, variants: int, placements=PLACEMENTS, history="normal", styles=("old", "new"), klass="std"):
     for tR in TYPES:
         for tP in TYPES:
             for pl in placements:
-                for style in ("old", "new"):
+                for style in styles:
                     for _v in range(variants):
-                        yield {"tR": tR, "tP": tP, "placement": pl, "style": style, "history": history,
+                        yield {"klass": klass,
+                               "tR": tR, "tP": tP, "placement": pl, "style": style, "history": history,
                                "ncand": rng.randrange(1, 6), "ports": rng.choice(["preserve", "remap"]),
                                "same_port": rng.random() < 0.5, "collide": rng.random() < 0.4,
                                "noise": rng.random() < 0.3, "r_first": rng.random() < 0.34, "seed": rng.randrange(1 << 30),
-                               "overlays": "other-first" if rng.random() < 0.3 else "single",
+                               "overlays": "other-first" if klass == "std" and rng.random() < 0.3 else "single",
                                "ages": [rng.choice(AGES) for _ in range(8)] if rng.random() < 0.6 else []}
 
 
@@ -877,6 +1031,11 @@ def run(ctx: Ctx):
     # every way the introducer can have learned the candidates (HISTORIES) x the whole configuration table
     for hist in HISTORIES:
         for cfg in table_cfgs(ctx.rng, ctx.scale(1, 4), history=hist):
+            scripted(ctx, cfg, use_model, batch)
+            if len(batch) >= 200:
+                flush(ctx, batch)
+    for klass, (pls, styles) in CLASSES.items():
+        for cfg in table_cfgs(ctx.rng, ctx.scale(1, 3), placements=pls, styles=styles, klass=klass):
             scripted(ctx, cfg, use_model, batch)
             if len(batch) >= 200:
                 flush(ctx, batch)
@@ -903,10 +1062,12 @@ def sample_trace(ctx: Ctx):
     import random as _random
     cfg = {"tR": "portRestricted", "tP": "portRestricted", "placement": "diff", "style": "old", "history": "normal",
            "ncand": 2, "ports": "remap", "same_port": True, "collide": True, "noise": False, "r_first": False, "seed": 7,
-           "overlays": "other-first", "ages": [2 ** 32 + 5, 70000, 65534]}
+           "overlays": "other-first", "ages": [2 ** 32 + 5, 70000, 65534], "klass": "std"}
     sub = Ctx(ctx.prop, ctx.tier, 0)
     w = scripted(sub, cfg, False, [])
-    ctx.sample({"cfg": cfg, "model_lines": w.lines[:12], "implementation": w.expect[:12]})
+    ops = [(ln, ex) for ln, ex in zip(w.lines, w.expect) if ln.startswith(("walk", "ask"))][:6]
+    ctx.sample({"cfg": cfg, "setup_lines": [ln for ln in w.lines if ln.startswith(("host", "clock"))],
+                "operations": [{"line": ln, "trace (implementation = model)": ex} for ln, ex in ops]})
     del _random
 
 
@@ -915,6 +1076,11 @@ def search(ctx: Ctx, reason: str):
     lan_table_check(ctx, False, [])
     for hist in HISTORIES:
         for cfg in table_cfgs(ctx.rng, 3, history=hist):
+            scripted(ctx, cfg, False, [])
+            if len(ctx.failures) >= 20:
+                return
+    for klass, (pls, styles) in CLASSES.items():
+        for cfg in table_cfgs(ctx.rng, 2, placements=pls, styles=styles, klass=klass):
             scripted(ctx, cfg, False, [])
             if len(ctx.failures) >= 20:
                 return
@@ -934,6 +1100,11 @@ def replay(ctx: Ctx, rec: dict):
         if got != want:
             ctx.oracle_fail("replay", "replayed input still fails", r)
         ctx.case(("replay",), True)
+        return
+    if r.get("kind") == "random":
+        random_history(ctx, r["seed"], False, [])
+        print(f"replay of random history seed={r['seed']}: property",
+              "FAILS: " + "; ".join(f["what"] for f in ctx.failures[:4]) if ctx.failures else "holds")
         return
     cfg = r["cfg"]
     w = scripted(ctx, cfg, False, [])
